@@ -75,6 +75,35 @@ AllDigits(s) == \A i \in 1..Len(s) : IsDigit(s[i])
 DecVal(s) == FoldLeft(LAMBDA acc, c : acc * 10 + (c - 48), 0, s)
 
 ----------------------------------------------------------------------------
+(* civil dates (proleptic Gregorian, days since 1970-01-01) *)
+DayNames == <<<<83,117,110>>, <<77,111,110>>, <<84,117,101>>, <<87,101,100>>, <<84,104,117>>, <<70,114,105>>, <<83,97,116>>>>
+MonNames == <<<<74,97,110>>, <<70,101,98>>, <<77,97,114>>, <<65,112,114>>, <<77,97,121>>, <<74,117,110>>,
+              <<74,117,108>>, <<65,117,103>>, <<83,101,112>>, <<79,99,116>>, <<78,111,118>>, <<68,101,99>>>>
+W_GMT == <<32, 71, 77, 84>>
+Civil(days) ==
+    LET z == days + 719468
+        era == z \div 146097
+        doe == z - era * 146097
+        yoe == (doe - doe \div 1460 + doe \div 36524 - doe \div 146096) \div 365
+        doy == doe - (365 * yoe + yoe \div 4 - yoe \div 100)
+        mp == (5 * doy + 2) \div 153
+        d == doy - (153 * mp + 2) \div 5 + 1
+        m == IF mp < 10 THEN mp + 3 ELSE mp - 9
+        y == yoe + era * 400 + (IF m <= 2 THEN 1 ELSE 0) IN
+    [y |-> y, m |-> m, d |-> d]
+DaysFromCivil(y0, m, d) ==
+    LET y == IF m <= 2 THEN y0 - 1 ELSE y0
+        era == y \div 400
+        yoe == y - era * 400
+        doy == (153 * (IF m > 2 THEN m - 3 ELSE m + 9) + 2) \div 5 + d - 1
+        doe == yoe * 365 + yoe \div 4 - yoe \div 100 + doy IN
+    era * 146097 + doe - 719468
+IsLeap(y) == (y % 4 = 0 /\ y % 100 # 0) \/ y % 400 = 0
+DaysIn(y, m) == IF m = 2 THEN (IF IsLeap(y) THEN 29 ELSE 28) ELSE IF m \in {4, 6, 9, 11} THEN 30 ELSE 31
+RECURSIVE Gcd(_, _)
+Gcd(a, b) == IF b = 0 THEN a ELSE Gcd(b, a % b)
+
+----------------------------------------------------------------------------
 (* UTF-8 (RFC 3629): code points 0..10FFFF without surrogates *)
 IsScalar(c) == c >= 0 /\ c <= 1114111 /\ ~(c >= 55296 /\ c <= 57343)
 Utf8Char(c) ==
@@ -104,6 +133,24 @@ Utf8Step(st, b) ==
 Utf8Run(bs) == FoldLeft(Utf8Step, [ok |-> TRUE, out |-> <<>>, need |-> 0, cp |-> 0, lo |-> 128, hi |-> 191], bs)
 Utf8Valid(bs) == LET r == Utf8Run(bs) IN r.ok /\ r.need = 0
 Utf8Dec(bs) == Utf8Run(bs).out          \* meaningful only when Utf8Valid(bs)
+
+----------------------------------------------------------------------------
+(* HTML *)
+E_amp  == <<38,97,109,112,59>>        \* "&amp;"
+E_lt   == <<38,108,116,59>>           \* "&lt;"
+E_gt   == <<38,103,116,59>>           \* "&gt;"
+E_quot == <<38,113,117,111,116,59>>   \* "&quot;"
+E_apos == <<38,35,120,50,55,59>>      \* "&#x27;"
+Entities == <<E_amp, E_lt, E_gt, E_quot, E_apos>>
+EntChar  == <<38, 60, 62, 34, 39>>
+HtmlEscChar(c) == CASE c = 38 -> E_amp [] c = 60 -> E_lt [] c = 62 -> E_gt
+                    [] c = 34 -> E_quot [] c = 39 -> E_apos [] OTHER -> <<c>>
+HtmlEscape(t) == CatMap(HtmlEscChar, t)
+
+(* no raw markup character, and every '&' starts one of the five entities *)
+HtmlSafe(s) == \A i \in 1..Len(s) :
+                  /\ s[i] \notin {60, 62, 34, 39}
+                  /\ s[i] = 38 => \E e \in 1..5 : HasAt(s, i, Entities[e])
 
 ----------------------------------------------------------------------------
 (* percent-encoding of a byte sequence; bytes in `safe` are kept *)
